@@ -1,7 +1,7 @@
 (* C13 dispatch: decodes a module heap + program, runs Model/C13_Swap (and C13_Params), prints canonical traces. *)
 From Coq Require Import ZArith List String Bool.
 Import ListNotations.
-From TD Require Import Lib.Sexp Model.C13_Swap Model.C13_Params.
+From TD Require Import Lib.Sexp Model.C13_Swap Model.C13_Scope Model.C13_Params.
 Open Scope string_scope.
 Open Scope list_scope.
 
@@ -128,8 +128,11 @@ Definition dec_objref (s : sexp) : option obj :=
   match dec_ref s with Some (Some (o, _)) => Some o | _ => None end.
 Definition dec_pop (s : sexp) : option pop :=
   match s with
-  | SL [SA "set"; p; r; f] =>
-      match dec_path p, dec_objref r, dec_bool f with Some p, Some o, Some f => Some (OSet p o f) | _, _, _ => None end
+  | SL [SA "set"; p; r; f; c] =>
+      match dec_path p, dec_objref r, dec_bool f, dec_bool c with
+      | Some p, Some o, Some f, Some c => Some (OSet p o f c)
+      | _, _, _, _ => None
+      end
   | SL [SA "del"; p] => option_map ODel (dec_path p)
   | SL [SA "rename"; SA k; SA k'] => Some (ORename k k')
   | SL [SA "nset"; p; SA k; r] =>
@@ -161,6 +164,13 @@ Definition dispatch (cmd : string) (args : list sexp) : option sexp :=
           let st := mkSt heap vals FRESH_BASE in
           Some (SL (map enc_event (run_program x (map fst bs) st)))
       | _, _, _ => None
+      end
+  | "scope", [mods; blocks; _] =>
+      match dec_list dec_mod mods, dec_list dec_block blocks with
+      | Some ms, Some bs =>
+          let heap := map (fun m => (fst (fst m), snd (fst m))) ms in
+          Some (SL [enc_bool (wf_heapb heap); enc_bool (forallb (block_okb heap) (map fst bs)); enc_bool (names_okb heap)])
+      | _, _ => None
       end
   | "from-module", [mods; SZ root] =>
       match dec_list dec_mod mods with
